@@ -17,13 +17,14 @@ RULE = ("histories: each case is a sub-seed from which 1-2 instance templates ar
         "covering every FGD value type collapse_one dispatches on, outputs, nested func_instance entities with $fixup "
         "tables, hidden items, $variables in names/texts/outputs) and a sequence of 2-5 collapses (origins {zero, fixed, "
         "grid, random}, angles {identity, axis-aligned, multiples of 15, random}, the 3 fixup styles, 9 fixup tables, 8 "
-        "instance names, visgroup mode False/True/given group 70/20/10%) interleaved over the cached templates into shared or fresh target maps, parameters repeated at a "
+        "instance names, half of the Instances built with decoy constructor arguments and the real name/style/pos/orient/fixup assigned afterwards, visgroup mode False/True/given group 70/20/10%) interleaved over the cached templates into shared or fresh target maps, parameters repeated at a "
         "different placement with probability 0.5; the model is evaluated on the template as extracted before every step "
         "and compared after every step. Plus: exhaustive substitute() texts of length <= L over a 9-symbol alphabet x 9 "
         "tables x 2 defaults; all fixup_name cases over styles x instance names x name pool; nested two-level placements; "
         "classnames and keys spelt in other cases (Func_Instance, ORIGIN ...: the code compares them casefolded); "
         "collapse_all on random inclusion graphs (1-4 files, branching <= 2(3), self/mutual recursion, missing files, "
         "func_instance / file / origin / angles spelt in mixed case, run under a call counter (bound of C17_term + 5) and an alarm, "
+        "unnamed top-level instances (empty or absent targetname) in all styles over files with a named target and a relay with outputs - every collapse_one call recorded, "
         "recursion limit 0-5; retry after FileNotFoundError / RecursionError must equal a clean run); I/O proxy cases (1-3 entities, a proxy "
         "named in any case, OnProxyRelay / ProxyRelay outputs in any case, outer outputs instance:name;Input and func_instance outputs "
         "instance:name;Output in any case, fire counts -1/1/3, delays); func_instance_parms values (15 fixed + random token "
@@ -74,11 +75,36 @@ def impl():
 
 # ------------------------------------------------------------------------------------------- histories
 
-def make_inst(im, params, origin, angles):
-    I, Vec, Matrix, Angle, FixupValue = im['I'], im['Vec'], im['Matrix'], im['Angle'], im['FixupValue']
-    return I.Instance(params['name'], 'tmpl.vmf', Vec(*origin), Matrix.from_angle(Angle(*angles)),
-                      I.FixupStyle(params['style']),
-                      fixup=[FixupValue(k, v, i + 1) for i, (k, v) in enumerate(params['fixup'])])
+def make_inst(im, params, origin, angles, late=None, filename='tmpl.vmf', outputs=()):
+    """The Instance for one collapse. With `late` (a sub-seed) some of its public attributes (name, fixup_type, pos,
+    orient, fixup, outputs) are passed to the constructor as DECOY values and set to the real ones afterwards, the way
+    collapse_all itself does with `inst.name = 'InstanceAutoN'`: a collapse must follow the CURRENT attribute values."""
+    I, Vec, Matrix, Angle, FixupValue, EntityFixup = im['I'], im['Vec'], im['Matrix'], im['Angle'], im['FixupValue'], im['EntityFixup']
+    real = {'name': params['name'], 'pos': Vec(*origin), 'orient': Matrix.from_angle(Angle(*angles)),
+            'fixup_type': I.FixupStyle(params['style']),
+            'fixup': [FixupValue(k, v, i + 1) for i, (k, v) in enumerate(params['fixup'])], 'outputs': list(outputs)}
+    if late is None:
+        return I.Instance(real['name'], filename, real['pos'], real['orient'], real['fixup_type'], real['outputs'], real['fixup'])
+    lr = random.Random(late)
+    decoy = {'name': 'CTOR', 'pos': Vec(7, -7, 7), 'orient': Matrix.from_angle(Angle(30, 60, 90)),
+             'fixup_type': I.FixupStyle((params['style'] + 1) % 3),
+             'fixup': [FixupValue('nm', 'CTORVAL', 1), FixupValue('zz', 'CTOR2', 2)], 'outputs': []}
+    which = {k for k in real if lr.random() < 0.5} or {'name'}
+    a = {k: (decoy[k] if k in which else real[k]) for k in real}
+    inst = I.Instance(a['name'], filename, a['pos'], a['orient'], a['fixup_type'], a['outputs'], a['fixup'])
+    for k in sorted(which):
+        if k == 'fixup':
+            if lr.random() < 0.5:
+                inst.fixup = EntityFixup(real['fixup'])
+            else:
+                inst.fixup.clear()
+                for fv in real['fixup']:
+                    inst.fixup[fv.var] = fv.value
+        elif k == 'outputs':
+            inst.outputs = real['outputs']
+        else:
+            setattr(inst, k, real[k])
+    return inst
 
 
 def inst_model(im, inst, params):
@@ -103,7 +129,8 @@ def plan_history(rng):
             ang, org, ak, ok = steps[-1]['angles'], steps[-1]['origin'], steps[-1]['ak'], steps[-1]['ok']
         steps.append({'t': t, 'params': params, 'angles': ang, 'origin': org, 'ak': ak, 'ok': ok,
                       'fresh': rng.random() < 0.5,
-                      'vis': rng.choice(['strip'] * 7 + ['keep', 'keep', 'group'])})
+                      'vis': rng.choice(['strip'] * 7 + ['keep', 'keep', 'group']),
+                      'late': rng.getrandbits(30) if rng.random() < 0.5 else None})
         prev = (t, params)
     return n_t, steps
 
@@ -133,7 +160,7 @@ def run_history(seed, numeric_vars=False, with_model=True):
             params['fixup'] = list(params['fixup']) + [('ox', '32'), ('oy', '-7.5'), ('oz', '1e2')]
         st.params = params
         tmpl = templates[sp['t']]
-        inst = make_inst(im, params, sp['origin'], sp['angles'])
+        inst = make_inst(im, params, sp['origin'], sp['angles'], late=sp.get('late'))
         st.inst = inst
         st.R = G.mat_entries(inst.orient)
         st.o = tuple(inst.pos)
@@ -866,8 +893,8 @@ def run_io(seed):
     outer_before = [[_orec(o) for o in e.outputs] for e in target.entities]
     f = I.InstanceFile(t)
     before = t.export(inc_version=False)
-    inst = I.Instance(params['name'], 'io.vmf', Vec(64, 0, 0), Matrix(), I.FixupStyle(params['style']), outputs=inst_outs,
-                      fixup=[FixupValue(k, v, i + 1) for i, (k, v) in enumerate(params['fixup'])])
+    inst = make_inst(im, params, (64, 0, 0), (0, 0, 0), late=rng.getrandbits(30) if rng.random() < 0.5 else None,
+                     filename='io.vmf', outputs=inst_outs)
     inst_recs = [_orec(o) for o in inst_outs]
     n0 = len(target.entities)
     r = {'seed': seed, 'params': params, 'tmpl': tmpl, 'outer_before': outer_before, 'inst_outs': inst_recs, 'error': None}
@@ -1108,6 +1135,8 @@ def build_graph(im, g, with_missing=False):
         v = VMF()
         v.add_brush(G._rand_brush(rng, im, v))
         v.create_ent('info_target', targetname='t', origin='0 0 0')
+        rl = v.create_ent('logic_relay', targetname='r', origin='0 0 8')
+        rl.add_out(im['Output']('OnTrigger', 't', 'Kill'), im['Output']('OnTrigger', '@g', 'Trigger'), im['Output']('OnSpawn', 'r', 'Disable'))
         for k in f['kids']:
             (a, _), (o, _) = G.rand_angle(rng), G.rand_origin(rng)
             # classnames and keys are compared case-insensitively (by_class, Entity keys): spell them in any case
@@ -1122,7 +1151,11 @@ def build_graph(im, g, with_missing=False):
     top = VMF()
     for k in g['init']:
         (a, _), (o, _) = G.rand_angle(rng), G.rand_origin(rng)
-        top.create_ent(G.case_variant(rng, 'func_instance', 0.3), file=name(k), targetname=rng.choice(['', 'top']), origin=G.fmt_vec(o), angles=G.fmt_vec(a))
+        kw = {'file': name(k), 'origin': G.fmt_vec(o), 'angles': G.fmt_vec(a), 'fixup_style': str(rng.choice([0, 0, 1, 2]))}
+        nm = rng.choice(['', '', None, 'top', 'Named'])     # unnamed: empty or no targetname key at all
+        if nm is not None:
+            kw['targetname'] = nm
+        top.create_ent(G.case_variant(rng, 'func_instance', 0.3), **kw)
     if with_missing:
         v = VMF()
         v.add_brush(v.make_prism(im['Vec'](0, 0, 0), im['Vec'](24, 8, 40)).solid)
@@ -1146,11 +1179,19 @@ def run_collapse_all(im, g):
     count = [0]
     real = I.collapse_one
 
-    def counting(*a, **k):
+    calls = []
+
+    def counting(vmf, inst, *a, **k):
         count[0] += 1
         if count[0] > bound + 5:
             raise _TooMany()
-        return real(*a, **k)
+        n0 = len(vmf.entities)
+        rec = {'name': inst.name, 'style': inst.fixup_type.value}
+        try:
+            return real(vmf, inst, *a, **k)
+        finally:
+            rec['new'] = [(e['classname'].casefold(), e['targetname'], [o.target for o in e.outputs]) for e in vmf.entities[n0:]]
+            calls.append(rec)
 
     def on_alarm(*_):
         raise _Alarm()
@@ -1177,7 +1218,7 @@ def run_collapse_all(im, g):
         signal.signal(signal.SIGALRM, old)
         I.collapse_one = real
     return {'collapses': count[0], 'outcome': outcome, 'left': len(top.by_class['func_instance']),
-            'brushes': len(top.brushes), 'bound': bound, 'spell': spell}
+            'brushes': len(top.brushes), 'bound': bound, 'spell': spell, 'calls': calls}
 
 
 def _map_summary(top):
@@ -1234,6 +1275,47 @@ def retry_experiment(im, g, r):
     return []
 
 
+_AUTO_RE = __import__('re').compile(r'InstanceAuto(\d+)$')
+
+
+def check_auto_names(g, r):
+    """Names produced by collapse_all: every instance - also an unnamed one, which gets InstanceAuto<N> - puts its name
+    on the entities it adds in the shape of its fixup style; outputs target the renamed entities; the same entity
+    copied from instances with different names has different names."""
+    bad = []
+    seen = {}
+    autos = []
+    for c in r.get('calls', []):
+        nm, style = c['name'], c['style']
+        if not nm:
+            bad.append(('auto-name', f'collapse_all collapsed an instance with an empty name (no InstanceAuto<N> assigned): graph {g}'))
+            continue
+        m = _AUTO_RE.match(nm)
+        if m:
+            autos.append(int(m.group(1)))
+        for cls, tn, outs in c['new']:
+            base = {'info_target': 't', 'logic_relay': 'r'}.get(cls)
+            if base is None:
+                continue
+            want = G.spec_fixup_name(style, nm, base)
+            if tn != want:
+                bad.append(('auto-name', f'instance {nm!r} (style {G.STYLE_NAMES[style]}) produced the entity {tn!r} from {base!r}, expected {want!r}; graph {g}'))
+                return bad
+            if cls == 'logic_relay':
+                wo = [G.spec_fixup_name(style, nm, 't'), '@g', G.spec_fixup_name(style, nm, 'r')]
+                if outs != wo:
+                    bad.append(('auto-name', f'instance {nm!r} (style {G.STYLE_NAMES[style]}): relay outputs target {outs}, expected the renamed entities {wo}; graph {g}'))
+                    return bad
+            if style != 2:
+                other = seen.setdefault((style, base, tn), nm)
+                if other != nm:
+                    bad.append(('auto-name', f'instances {other!r} and {nm!r} both produced an entity named {tn!r}; graph {g}'))
+                    return bad
+    if autos != list(range(1, len(autos) + 1)):
+        bad.append(('auto-name', f'automatic instance names are not InstanceAuto1..N in processing order: {autos}; graph {g}'))
+    return bad
+
+
 def check_collapse_all(g, r):
     """Termination statement: returns with no instance left, or raises RecursionError / FileNotFoundError, after at
     most n0 * sum_{k<limit} b^k collapses."""
@@ -1254,6 +1336,7 @@ def check_collapse_all(g, r):
         bad.append(('collapse-all', f'FileNotFoundError although every file exists: {g}'))
     if r['outcome'] == 'done' and r['brushes'] != r['collapses']:
         bad.append(('collapse-all', f'{r["collapses"]} collapses of one-brush files produced {r["brushes"]} brushes: {g}'))
+    bad += check_auto_names(g, r)
     bad += retry_experiment(impl(), g, r)
     return bad
 
@@ -1281,6 +1364,14 @@ def corr_collapse_all(ctx, drv):
         ctx.count('collapse_all outcome ' + r['outcome'])
         ctx.count('collapse_all self-recursive' if selfrec else 'collapse_all not self-recursive')
         ctx.count('collapse_all with a mixed-case func_instance classname' if any(x != 'func_instance' for x in r['spell']) else 'collapse_all all lower-case')
+    # automatic names: the names as processed against the model's assignAuto
+    areqs = [{'op': 'autonames', 'names': [codes('' if _AUTO_RE.match(c['name']) else c['name']) for c in r['calls']]} for g, r in meta]
+    for (g, r), m in zip(meta, drv.batch(areqs)):
+        ctx.traces_vs_impl += 1
+        got = [c['name'] for c in r['calls']]
+        if [uncodes(x) for x in m.get('names', [])] != got:
+            ctx.disagree({'graph': g}, got, m, 'InstanceAuto<N> naming in collapse_all')
+        ctx.count('collapse_all unnamed instances collapsed', sum(1 for x in got if _AUTO_RE.match(x)))
     for (g, r), m in zip(meta, drv.batch(reqs)):
         ctx.traces_vs_impl += 1
         if r['outcome'] == 'missing' or m.get('outcome') == 'missing':
@@ -1321,6 +1412,7 @@ def correspond(ctx, drivers):
             ctx.count('style ' + G.STYLE_NAMES[st.params['style']])
             ctx.count('target ' + ('fresh' if st.plan['fresh'] else 'shared'))
             ctx.count('visgroup mode ' + st.vis)
+            ctx.count('instance attributes set after construction' if st.plan.get('late') is not None else 'instance attributes from the constructor')
             ctx.count('brushes placed', len(st.old_brushes)); ctx.count('entities placed', len(st.old_ents))
             ctx.count('displacement faces placed', st.disp_faces[0])
             if st.error:
